@@ -4,7 +4,8 @@ One JSON object per line:
   status     "known" | "fixed"
   id         D-number used in DESIGN.md
   property   list of property ids the finding is reported under
-  fn         key of the function whose obligation fails
+  fn         key of the function whose obligation fails (or fn_re: regular expression over the key, for
+             macro-generated families that differ only in the integer type)
   kind       "clause" (named ensures clause) | "overflow" (implicit-panic site, D-run) | "precondition"
   clause     name of the failing clause            (kind == clause)
   expr       source text of the operator expression (kind == overflow), whitespace-normalised
@@ -14,6 +15,7 @@ A "fixed" entry suppresses nothing.
 """
 import json
 import os
+import re
 
 VERIF = os.path.dirname(os.path.dirname(os.path.abspath(__file__)))
 PATH = os.path.join(VERIF, 'known_findings.jsonl')
@@ -40,11 +42,14 @@ def match(diag_key, known):
     for k in known:
         if k.get('status') != 'known':
             continue
-        if k.get('fn') != diag_key['fn']:
+        if 'fn_re' in k:
+            if not re.fullmatch(k['fn_re'], diag_key['fn'] or ''):
+                continue
+        elif k.get('fn') != diag_key['fn']:
             continue
         if k.get('kind') != diag_key['kind']:
             continue
-        if k['kind'] == 'clause' and k.get('clause') == diag_key.get('clause'):
+        if k['kind'] in ('clause', 'precondition') and k.get('clause') == diag_key.get('clause'):
             return k
         if k['kind'] == 'overflow' and norm(k.get('expr')) == norm(diag_key.get('expr')):
             return k
